@@ -1,14 +1,27 @@
 #!/usr/bin/env python3
 """Prints the markdown table of seeded changes (from /verif/seeded/*/meta.json) for DESIGN.md §7.7."""
-import json, glob, os
+import json, glob, os, re
 rows=[]
-for m in sorted(glob.glob('/verif/seeded/*/meta.json')):
-    j=json.load(open(m)); name=os.path.basename(os.path.dirname(m))
+def key(n):
+    m=re.match(r'C(\d+)(?:-(\d+))?$', n); return (int(m.group(1)), int(m.group(2) or 1))
+names=sorted((os.path.basename(os.path.dirname(m)) for m in glob.glob('/verif/seeded/*/meta.json')), key=key)
+caught=other=notclaimed=missed=0
+for name in names:
+    j=json.load(open(f'/verif/seeded/{name}/meta.json'))
     c=j.get('confirmed_by_me',{}); r=j.get('check_result',{})
-    sig=(r.get('signatures') or [''])[0].replace('sig=','').split(' ')[0][:90]
-    rows.append((name, j['property'], (j.get('breaks') or '')[:230].replace('|','/').replace('\n',' '), 'yes' if c.get('confirmed') else 'NO', 'caught' if r.get('caught_by_quick') else 'MISSED', sig))
-print('| seeded change | property | what it breaks (needs something specific to manifest) | confirmed | quick check | first signature |')
+    sig=(r.get('signatures') or [''])[0].replace('sig=','').split(' ')[0][:80]
+    rc=j.get('recheck',{})
+    if rc.get('result')=='caught' and not sig:
+        sig=(rc.get('signatures') or [''])[0].replace('sig=','').split(' ')[0][:80]
+    if r.get('caught_by_quick') or rc.get('result')=='caught': st='caught'; caught+=1
+    elif r.get('caught_by_quick_before_fix'): st='caught (before a later fix removed the path; see meta)'; caught+=1
+    elif r.get('caught_by_other_check'): st='caught by '+r['caught_by_other_check']+' (see meta)'; other+=1
+    elif r.get('outside_property_as_stated'): st='not claimed (outside the property as stated; see meta)'; notclaimed+=1
+    else: st='MISSED (see meta)'; missed+=1
+    conf='yes' if (c.get('confirmed') or c.get('confirmed_before_fix')) else 'NO'
+    rows.append((name, j['property'], (j.get('breaks') or '')[:200].replace('|','/').replace('\n',' '), conf, st, sig))
+print('| seeded change | property | what it breaks (needs something specific to manifest) | confirmed | quick check of the property | first signature |')
 print('|---|---|---|---|---|---|')
 for r in rows: print('| '+' | '.join(r)+' |')
 print()
-print(f'{sum(1 for r in rows if r[4]=="caught")} of {len(rows)} caught by the quick tier of the property\'s own check.')
+print(f'{len(rows)} seeded changes: {caught} caught by the quick tier of the property\'s own check, {other} caught by a sibling property\'s check, {notclaimed} not claimed (outside the property as stated), {missed} missed.')
